@@ -29,6 +29,7 @@ type c25Cfg struct {
 
 type c25State struct {
 	e     *vEnv
+	root  uint64
 	fh    uint64
 	cfg   c25Cfg
 	model []byte
@@ -65,7 +66,7 @@ func c25New(cfg c25Cfg, c *vCtx) *c25State {
 	vMust(err, "mnt")
 	fh, err := e.lookupFH(root, "f")
 	vMust(err, "lookup")
-	return &c25State{e: e, fh: fh, cfg: cfg, model: []byte("ab"), c: c}
+	return &c25State{e: e, root: root, fh: fh, cfg: cfg, model: []byte("ab"), c: c}
 }
 
 func (s *c25State) backend() []byte {
@@ -100,10 +101,16 @@ func (s *c25State) apply(op c25Op, check bool, hist []c25Op) {
 			}
 			copy(want[op.Off:], data)
 		}
-	case "setsize":
+	case "setsize", "createsize":
 		var a wire.Enc
-		a.FH(s.fh).Sattr(wire.Sattr{Size: wire.U64p(op.Size)}).U32(0)
-		res, _, err = s.e.nfsCall(wire.SETATTR, a.B)
+		if op.Kind == "createsize" {
+			// UNCHECKED CREATE of the existing name with size set: the file is resized like SETATTR(size)
+			a.FH(s.root).Str("f").U32(0).Sattr(wire.Sattr{Size: wire.U64p(op.Size)})
+			res, _, err = s.e.nfsCall(wire.CREATE, a.B)
+		} else {
+			a.FH(s.fh).Sattr(wire.Sattr{Size: wire.U64p(op.Size)}).U32(0)
+			res, _, err = s.e.nfsCall(wire.SETATTR, a.B)
+		}
 		over = limit > 0 && op.Size > uint64(limit) && op.Size > uint64(len(s.model))
 		latitude = limit > 0 && op.Size > uint64(limit) && !over // shrinking an already oversize file
 		want = append([]byte(nil), s.model...)
@@ -121,7 +128,7 @@ func (s *c25State) apply(op c25Op, check bool, hist []c25Op) {
 			s.c.violation("C25|call-failed|op="+op.Kind, fmt.Sprintf("%v", err), cs())
 			return
 		}
-		tooBigForBackend := op.Kind == "setsize" && op.Size > backendMax
+		tooBigForBackend := op.Kind != "write" && op.Size > backendMax
 		switch {
 		case latitude:
 			s.c.count("not_judged_file_already_above_limit", 1)
@@ -164,6 +171,9 @@ func c25Ops(m int64) []c25Op {
 			}
 		}
 		ops = append(ops, c25Op{Kind: "setsize", Size: o})
+		if o >= uint64(m)-1 || o == 0 {
+			ops = append(ops, c25Op{Kind: "createsize", Size: o})
+		}
 	}
 	ops = append(ops, c25Op{Kind: "setsize", Size: 1 << 40})
 	// deterministic order
@@ -192,7 +202,7 @@ func init() {
 	vRegister(&vCheck{
 		id: "C25", level: "model_checking", flavour: "vtime",
 		shards: func(string) int { return 13 },
-		rule: "breadth-first search over histories of WRITE(off,len) and SETATTR(size) with off and size in [0,M+2] (dense up to 8) and {M-1,M,M+1,M+2}, len in {0,1,2,3,M,M+1}, size 2^40, on one file, for MaxFileSize M in {1,4,5,4096} established at construction / by UpdatePolicyOptions / by UpdateExportOptions, plus the unlimited configuration; depth 2 (thorough 3) with deduplication on the file's bytes; after every transition the backend file is compared with a byte-array model: size never above M, an over-limit request replies NFS3ERR_FBIG and changes nothing, every other request behaves exactly as in the unlimited model.",
+		rule: "breadth-first search over histories of WRITE(off,len), SETATTR(size) and UNCHECKED CREATE of the existing name with size set, with off and size in [0,M+2] (dense up to 8) and {M-1,M,M+1,M+2}, len in {0,1,2,3,M,M+1}, size 2^40, on one file, for MaxFileSize M in {1,4,5,4096} established at construction / by UpdatePolicyOptions / by UpdateExportOptions, plus the unlimited configuration; depth 2 (thorough 3) with deduplication on the file's bytes; after every transition the backend file is compared with a byte-array model: size never above M, an over-limit request replies NFS3ERR_FBIG and changes nothing, every other request behaves exactly as in the unlimited model.",
 		assumptions: []string{"the recording backend refuses sizes above 1 MiB (its own guard); such requests are only required to leave the file unchanged"},
 		run: func(c *vCtx) {
 			var cfgs []c25Cfg
